@@ -213,8 +213,9 @@ class E3(Event):
     n: int
 
 
-def _make(kind: int, d: int, nfail: int):
-    """Three deterministic workflows; data travels in events.
+def _make(kind: int, d: int, nfail: int, same: bool = False, nw: int = 2):
+    """Three deterministic workflows; data travels in events.  (kind 2 with ``same``: both fanned-out events carry the SAME payload, so the run
+    holds two equal-but-distinct work items; ``nw`` workers on the mapping step: 1 = one executing + one queued, 2 = both executing.)
     0 chain  start -> s1 -> s2 -> stop        1 chain whose s1 fails ``nfail`` times (wait_fixed(d), budget 4)
     2 fan-out/join: start emits two E1 (ctx.send_event), s1 maps E1 -> E2 (2 workers), s2 collects two E2 and stops"""
 
@@ -223,11 +224,15 @@ def _make(kind: int, d: int, nfail: int):
             @step
             async def s0(self, ctx: Context, ev: StartEvent) -> E1 | None:
                 ctx.send_event(E1(n=1))
-                ctx.send_event(E1(n=2))
+                ctx.send_event(E1(n=1 if same else 2))
                 return None
 
-            @step(num_workers=2)
+            @step(num_workers=nw)
             async def s1(self, ctx: Context, ev: E1) -> E2:
+                if same:
+                    import asyncio
+
+                    await asyncio.sleep(1)      # both equal work items are in the run at the same time
                 return E2(n=ev.n * 10)
 
             @step
@@ -432,6 +437,8 @@ def _make_w(kind: int):
     that turns the TimeoutError into its result (the run is announced idle while it waits: the handler row is stamped and un-stamped)"""
     if kind <= 2:
         return _make(kind, 1 if kind == 1 else 0, 1 if kind == 1 else 0)
+    if kind >= 5:
+        return _make(2, 0, 0, same=True, nw=1 if kind == 5 else 2)
 
     class WaitT(Workflow):
         @step
@@ -459,7 +466,7 @@ class WaitA(Workflow):
         return StopEvent(result="answered:%d" % a.v)
 
 
-NKIND13 = 5
+NKIND13 = 7
 _FIRSTW = {}
 
 
@@ -504,7 +511,7 @@ def write_prefix_known(kind: int, k: int) -> bool:
     writes = _first_w(kind)["writes"]
     full = native(ticks_in, writes)
     kt = len(native(ticks_in, writes[:k]))
-    if kind <= 2:
+    if kind <= 2 or kind >= 5:
         for j, c in native(_causes, full):
             if j >= kt and c < kt:
                 return True
@@ -518,17 +525,18 @@ WMAX13 = 40
 
 
 @obligation(quick=300, thorough=900,
-            partitions_quick=[f"kind == {a} and k <= 12" for a in range(5)] + [f"kind == {a} and k > 12" for a in range(5)],
-            partitions_thorough=[f"kind == {a} and k % 4 == {m}" for a in range(5) for m in range(4)],
+            partitions_quick=[f"kind == {a} and k <= 12" for a in range(7)] + [f"kind == {a} and k > 12" for a in range(7)],
+            partitions_thorough=[f"kind == {a} and k % 4 == {m}" for a in range(7) for m in range(4)],
             what="whole in-process server stack, crash at ANY STORE WRITE: the first life's primitive store writes (handler-row upserts incl. idle "
                  "stamps, tick appends, event appends) are recorded in order; a fresh store gets the first k of them (k symbolic), a fresh stack is "
                  "started over it (service.start -> PersistenceDecorator._on_server_start): the run ends with the same status and result",
             bounds={"workflows": "chain / chain with one retry (delay 1) / fan-out + collect / wait_for_event(timeout=1) under idle announcement / "
-                                 "wait_for_event answered by a client event (prefixes that contain the persisted answer)",
+                                 "wait_for_event answered by a client event (prefixes that contain the persisted answer) / fan-out of two EQUAL payloads into a "
+                                 "1-worker step (one executing, one queued) / into a 2-worker step (both executing)",
                     "k": "every prefix of the recorded writes that contains at least one tick (<= 40 writes)"})
 def ob_restart_any_write(kind: int, k: int) -> bool:
     """
-    pre: 0 <= kind <= 4 and 1 <= k <= WMAX13 and k <= n_writes(kind) and prefix_has_tick(kind, k) and answer_persisted(kind, k)
+    pre: 0 <= kind <= 6 and 1 <= k <= WMAX13 and k <= n_writes(kind) and prefix_has_tick(kind, k) and answer_persisted(kind, k)
     post: _
     """
     kind, k = conc(kind, 0, NKIND13 - 1), conc(k, 1, WMAX13)
